@@ -192,7 +192,7 @@ func main() {
 	}
 	maxRootN := 40
 	if run.Thorough() {
-		maxRootN = 130
+		maxRootN = 100
 	}
 	for n := 0; n <= maxRootN; n++ {
 		reps := 1
@@ -329,13 +329,13 @@ func main() {
 	maxN := 40
 	variants := 1
 	if run.Thorough() {
-		variants = 4
+		variants = 3
 	}
 	variants *= run.Scale
 	// quick tier: every single mutation up to fullN transactions, sampled positions above
 	fullN := 12
 	if run.Thorough() {
-		fullN = maxN
+		fullN = 24
 	}
 	for n := 1; n <= maxN; n++ {
 		for vi := 0; vi < variants; vi++ {
@@ -385,7 +385,7 @@ func main() {
 			// exchange two positions: neighbours, with the coinbase, random pairs (all pairs in thorough)
 			for i := 0; i < n; i++ {
 				for j := i + 1; j < n; j++ {
-					if !((j == i+1 && sampled(i)) || (i == 0 && sampled(j)) || run.Thorough() || (n <= fullN && rng.Chance(10))) {
+					if !((j == i+1 && sampled(i)) || (i == 0 && sampled(j)) || (run.Thorough() && n <= 16) || (n <= fullN && rng.Chance(10))) {
 						continue
 					}
 					l := clone(base)
